@@ -82,7 +82,7 @@ func propC05(c *ctx) error {
 		}
 	}
 	r := newRng(c.seed, "C05")
-	n := c.n(2500, 120000)
+	n := c.n(2500, 40000)
 	for i := 0; i < n; i++ {
 		rc, st := genRenderCase(r, i%7 == 0)
 		addStats(res, st)
